@@ -24,9 +24,15 @@ the harness removes exactly those lines, knowing the source), and the summary.
 `program_title = title_format.format(path=…, name=…)`: the model is for `title_format = "{path}"`
 (what the harness passes): the title shows the path. With the default format "`{name}`" only the last
 segment of the path is printed, from which the path cannot be read back.
-Costs: the code prints Python floats (`repr`); the text of a cost is a PARAMETER `showCost : Rat → Str`
-of the model (the driver is given the texts by the harness, which checks the hypotheses the theorems
-put on it).
+Costs: the code prints Python numbers. The text of a program cost (always a float: `total_cost = 0.0`
+then `+=`) is a PARAMETER `showCost : Rat → Str` of the line model, the text of a row cost a parameter
+`rowCost : taxon → Rat → Str` (a row cost is the INT `0` for a `meta/` taxon and, under the zeno strategy,
+for a taxon whose not-yet-imparted suffix is empty — `sum(())` — and a float otherwise, so its text is
+not a function of its value alone: `0` / `0.0`). The theorems hold for every such pair of functions
+whose texts, on the costs of the body, are made of the characters of a float literal and read back
+(`costsOK`, Spec/ReportText.lean). The instances the driver uses are below: `showFloat` (the `repr` of
+a float that is a non-negative dyadic rational whose decimal expansion is short — what both strategies
+produce) and `rowCostText`; they are tied to the real text by the line-by-line stream of the harness.
 Core Lean only (linked into the native driver).
 -/
 import Paroxy.Model.Report
@@ -102,26 +108,57 @@ def titleLine (showCost : Rat → Str) (s : Section) : Str :=
   titleOpen ++ (chars s.path ++ (titleMid ++ (showCost s.cost ++ [')'])))
 
 /-- ``| {taxon_cost} | `{taxon_name}` | {s} |``. -/
-def rowLine (showCost : Rat → Str) (width : Nat) (r : Row) : Str :=
-  rowOpen ++ (showCost r.cost ++ (sep1 ++ (chars r.taxon ++ (sep2 ++ (renderCell width r.spans ++ rowClose)))))
+def rowLine (rowCost : Codes → Rat → Str) (width : Nat) (r : Row) : Str :=
+  rowOpen ++ (rowCost r.taxon r.cost ++ (sep1 ++ (chars r.taxon ++ (sep2 ++ (renderCell width r.spans ++ rowClose)))))
 
 /-- The lines of one program (without its source listing). -/
-def renderSection (showCost : Rat → Str) (width : Nat) (s : Section) : List Str :=
+def renderSection (showCost : Rat → Str) (rowCost : Codes → Rat → Str) (width : Nat) (s : Section) : List Str :=
   [] :: titleLine showCost s :: [] :: headerLine :: ruleLine ::
-    (s.rows.map (rowLine showCost width) ++ [[], hrLine])
+    (s.rows.map (rowLine rowCost width) ++ [[], hrLine])
 
 /-- The lines of one group. -/
-def renderBucket (showCost : Rat → Str) (width : Nat) (g : Bucket × List Section) : List Str :=
-  [] :: headingLine g.1 g.2.length :: g.2.flatMap (renderSection showCost width)
+def renderBucket (showCost : Rat → Str) (rowCost : Codes → Rat → Str) (width : Nat) (g : Bucket × List Section) :
+    List Str :=
+  [] :: headingLine g.1 g.2.length :: g.2.flatMap (renderSection showCost rowCost width)
 
 /-- The lines of the body of the report. -/
-def renderBody (showCost : Rat → Str) (width : Nat) (b : List (Bucket × List Section)) : List Str :=
-  b.flatMap (renderBucket showCost width)
+def renderBody (showCost : Rat → Str) (rowCost : Codes → Rat → Str) (width : Nat)
+    (b : List (Bucket × List Section)) : List Str :=
+  b.flatMap (renderBucket showCost rowCost width)
 
 /-- `"\n".join(lines)`. -/
 def joinLines : List Str → Str
   | [] => []
   | [a] => a
   | a :: b :: t => a ++ '\n' :: joinLines (b :: t)
+
+/-! ### The cost texts the driver uses -/
+
+/-- `repr(x)` for a float `x` equal to the non-negative dyadic rational `c` (denominator `2^k`), when the
+exact decimal expansion of `c` is the shortest literal that reads back as `x` (at most 15 significant
+digits is enough for that): CPython `float_repr` (`format_float_short`, code `'r'`): the digits `D` with
+the position `decpt` of the point; exponent notation iff `decpt <= -4 or decpt > 16`. -/
+def showFloat (c : Rat) : Str :=
+  let k := Nat.log2 c.den
+  let n := c.num.toNat * 5 ^ k                  -- c = n / 10^k
+  if n = 0 then ['0', '.', '0']
+  else
+    let d0 := nat n
+    let z := (d0.reverse.takeWhile (· == '0')).length
+    let d := d0.take (d0.length - z)
+    let decpt : Int := (d0.length : Int) - (k : Int)
+    if decpt ≤ -4 ∨ decpt > 16 then
+      let e := decpt - 1
+      let es := nat e.natAbs
+      d.take 1 ++ (if d.length > 1 then '.' :: d.drop 1 else []) ++
+        ['e', if e < 0 then '-' else '+'] ++ (if es.length < 2 then '0' :: es else es)
+    else if decpt ≤ 0 then ['0', '.'] ++ List.replicate decpt.natAbs '0' ++ d
+    else if decpt.toNat < d.length then d.take decpt.toNat ++ '.' :: d.drop decpt.toNat
+    else d ++ List.replicate (decpt.toNat - d.length) '0' ++ ['.', '0']
+
+/-- The text of a row cost: the int `0` of `taxon_cost` for a `meta/` taxon (both strategies) and of
+`sum(())` (zeno, nothing left to learn), else the float. -/
+def rowCostText (zeno : Bool) (taxon : Codes) (c : Rat) : Str :=
+  if c = 0 ∧ (Filter.isMeta taxon ∨ zeno) then ['0'] else showFloat c
 
 end Paroxy.ReportText
